@@ -55,5 +55,5 @@ LineOK == LET ln == Log[i]
 ZeroRegs2 == TLCSet(7, 0) /\ TLCSet(8, 0)
 ASSUME ZeroRegs2
 TSummary == PrintT("@@" \o ToJson([summary |-> TRUE, lines |-> Len(Log) - 1, cases |-> TLCGet(1), nonempty |-> TLCGet(2), multi |-> TLCGet(3), f25 |-> TLCGet(4), lookup |-> TLCGet(5),
-                                    samedepth |-> TLCGet(6), bad_lines |-> TLCGet(7), f25_twice |-> TLCGet(8), table_ok |-> TableOK, fam |-> Hdr.fam]))
+                                    samedepth |-> TLCGet(6), bad_lines |-> TLCGet(7), f25_twice |-> TLCGet(8), table_ok |-> TableOK, fam |-> Hdr.fam, total |-> Total]))
 =============================================================================
